@@ -245,6 +245,8 @@ class Actor(object):
                 bar.advance(2)
                 bar.finish()
                 io.error_line("")
+            elif k == "close_io":
+                io.close()  # the handler is done with the console (it detaches, it redirected its output)
             elif k == "mutate_args":
                 # an ordinary thing for user code to do with a list it was handed: extend it
                 for v in list(args.arguments().values()) + list(args.options().values()):
